@@ -169,6 +169,12 @@ static int vp_digitval(int c)
 /* core of the strto* family; limit = largest magnitude representable */
 static unsigned long long vp_strto(const char *nptr, char **endptr, int base, int *negp, int *ovfp)
 {
+#ifdef VP_CBMC
+  /* the C contract of strto*: a NULL string is undefined behaviour. Reported once, here, and the path ends: reading through NULL would
+   * otherwise go on with unconstrained bytes through every loop bound below */
+  __CPROVER_assert(nptr != 0, "libc contract: strto*/ato* called with a NULL string");
+  __CPROVER_assume(nptr != 0);
+#endif
   const char *s = nptr; int neg = 0, any = 0, ovf = 0; unsigned long long acc = 0;
   while (*s == ' ' || (*s >= '\t' && *s <= '\r')) s++;
   if (*s == '-') { neg = 1; s++; } else if (*s == '+') s++;
